@@ -428,26 +428,27 @@ Proof. reflexivity. Qed.
 
 (* along the loop: the invariant, with the own challenges inside the armed
    random draws F and the received values inside the responses' values V *)
-Lemma loop_proved : forall steps k h c sent resps fresh reqs own vals F V p qs,
+Lemma loop_proved : forall steps k h c sent resps fresh reqs own vals F V p tok qs,
   Inv k h c own vals -> incl (emitted_challenges (cl_out c)) own ->
   incl own F -> incl vals V -> incl (map atom fresh) F -> incl (resp_values resps) V ->
-  handshake_loop sym_verify steps c sent resps fresh reqs = Some (Some p, qs) ->
+  handshake_loop sym_verify steps c sent resps fresh reqs = Some (Some (p, tok), qs) ->
   proved k h F V p.
 Proof.
-  induction steps as [|n IH]; intros k h c sent resps fresh reqs own vals F V p qs HI He Ho Hv Hf Hr H;
+  induction steps as [|n IH]; intros k h c sent resps fresh reqs own vals F V p tok qs HI He Ho Hv Hf Hr H;
     cbn [handshake_loop] in H.
-  - destruct (is_done c && sent); inversion H; subst.
-    eapply proved_mono; [exact Ho | exact Hv | apply (inv_proved _ _ _ _ _ HI); assumption].
+  - destruct (is_done c && sent); [|discriminate].
+    destruct (client_peer c) as [q|] eqn:Ec; inversion H; subst.
+    eapply proved_mono; [exact Ho | exact Hv | apply (inv_proved _ _ _ _ _ HI); exact Ec].
   - destruct (is_done c && sent).
-    + inversion H; subst.
-      eapply proved_mono; [exact Ho | exact Hv | apply (inv_proved _ _ _ _ _ HI); assumption].
+    + destruct (client_peer c) as [q|] eqn:Ec; inversion H; subst.
+      eapply proved_mono; [exact Ho | exact Hv | apply (inv_proved _ _ _ _ _ HI); exact Ec].
     + destruct resps as [|r rs]; [discriminate|]. destruct fresh as [|f fs]; [discriminate|].
       destruct (client_parse c (r_tbl r) (r_www r) (r_info r)) as [[c1 ok1]|] eqn:Ep; [|discriminate].
       destruct (client_run sym_verify c1 f) as [c2 ok2] eqn:Er. destruct ok2; [|discriminate].
       pose proof (client_parse_inv _ _ _ _ _ _ _ _ _ _ HI Ep) as HI1.
       pose proof (client_run_inv _ _ _ _ _ _ _ _ HI1 Er) as HI2.
       rewrite resp_values_cons in Hr.
-      eapply (IH k h c2 _ rs fs _ _ _ F V p qs HI2); try exact H.
+      eapply (IH k h c2 _ rs fs _ _ _ F V p tok qs HI2); try exact H.
       * apply incl_appl, incl_refl.
       * intros x Hx. apply in_app_or in Hx. destruct Hx as [Hx|Hx]; [|apply Ho, Hx].
         apply (client_run_emitted _ _ _ _ Er) in Hx. destruct Hx as [<-|Hx].
@@ -463,6 +464,47 @@ Qed.
 (* AuthenticatedDo returns a server id only if a response carried a signature that
    verifies under that id's key over a challenge drawn in this call, the client's
    key and the hostname *)
+(* a handshake started by the client: first Run, then the loop *)
+Lemma initiate_loop_proved : forall k h f0 fs resps c p tok qs,
+  client_run sym_verify (client_set_initiate (client_init k h)) f0 = (c, true) ->
+  handshake_loop sym_verify 5 c false resps fs [] = Some (Some (p, tok), qs) ->
+  proved k h (map atom (f0 :: fs)) (resp_values resps) p.
+Proof.
+  intros k h f0 fs resps c p tok qs Er H.
+  assert (HI0 : Inv k h (client_set_initiate (client_init k h)) [] []).
+  { pose proof (cop_step_inv k h _ [] [] OInit _ true (inv_init k h) eq_refl) as X. exact X. }
+  pose proof (client_run_inv _ _ _ _ _ _ _ _ HI0 Er) as HI1.
+  eapply (loop_proved 5 k h c false resps fs [] _ _ (map atom (f0 :: fs)) (resp_values resps) p tok qs HI1); try exact H.
+  - apply incl_appl, incl_refl.
+  - intros x Hx. apply in_app_or in Hx. destruct Hx as [Hx|[]].
+    apply (client_run_emitted _ _ _ _ Er) in Hx. destruct Hx as [<-|[]]. left. reflexivity.
+  - intros x [].
+  - intros x Hx. right. exact Hx.
+  - apply incl_refl.
+Qed.
+
+(* a handshake started from a 401 answer to a stored token: a new handshake object
+   parses that answer, first Run, then the loop *)
+Lemma rehandshake_loop_proved : forall k h r1 rs f0 fs c0 ok0 c p tok qs,
+  client_parse (client_init k h) (r_tbl r1) (r_www r1) (r_info r1) = Some (c0, ok0) ->
+  client_run sym_verify c0 f0 = (c, true) ->
+  handshake_loop sym_verify 5 c false rs fs [] = Some (Some (p, tok), qs) ->
+  proved k h (map atom (f0 :: fs)) (resp_values (r1 :: rs)) p.
+Proof.
+  intros k h r1 rs f0 fs c0 ok0 c p tok qs Ep Er H.
+  pose proof (client_parse_inv _ _ _ _ _ _ _ _ _ _ (inv_init k h) Ep) as HI0.
+  pose proof (client_run_inv _ _ _ _ _ _ _ _ HI0 Er) as HI1.
+  rewrite resp_values_cons.
+  eapply (loop_proved 5 k h c false rs fs [] _ _ (map atom (f0 :: fs)) _ p tok qs HI1); try exact H.
+  - apply incl_appl, incl_refl.
+  - intros x Hx. apply in_app_or in Hx. destruct Hx as [Hx|[]].
+    apply (client_run_emitted _ _ _ _ Er) in Hx. destruct Hx as [<-|Hx]; [left; reflexivity|].
+    rewrite (client_parse_out _ _ _ _ _ _ Ep) in Hx. destruct Hx.
+  - intros x Hx. rewrite app_nil_r in Hx. apply in_or_app. left. exact Hx.
+  - intros x Hx. right. exact Hx.
+  - intros x Hx. apply in_or_app. right. exact Hx.
+Qed.
+
 Theorem auth_do_proved_l : forall k h resps fresh p qs,
   auth_do_i k h resps fresh = Some (Some p, qs) ->
   proved k h (map atom fresh) (resp_values resps) p.
@@ -470,16 +512,8 @@ Proof.
   intros k h resps fresh p qs H. unfold auth_do_i, auth_do in H. destruct fresh as [|f0 fs]; [discriminate|].
   destruct (client_run sym_verify (client_set_initiate (client_init k h)) f0) as [c ok] eqn:Er.
   destruct ok; [|discriminate].
-  assert (HI0 : Inv k h (client_set_initiate (client_init k h)) [] []).
-  { pose proof (cop_step_inv k h _ [] [] OInit _ true (inv_init k h) eq_refl) as X. exact X. }
-  pose proof (client_run_inv _ _ _ _ _ _ _ _ HI0 Er) as HI1.
-  eapply (loop_proved 5 k h c false resps fs [] _ _ (map atom (f0 :: fs)) (resp_values resps) p qs HI1); try exact H.
-  - apply incl_appl, incl_refl.
-  - intros x Hx. apply in_app_or in Hx. destruct Hx as [Hx|[]].
-    apply (client_run_emitted _ _ _ _ Er) in Hx. destruct Hx as [<-|[]]. left. reflexivity.
-  - intros x [].
-  - intros x Hx. right. exact Hx.
-  - apply incl_refl.
+  destruct (handshake_loop sym_verify 5 c false resps fs []) as [[[[q tok]|] qs']|] eqn:El; try discriminate.
+  cbn in H. inversion H; subst. eapply initiate_loop_proved; eassumption.
 Qed.
 
 Theorem monitor5_model_l : forall k h resps fresh pid qs,
